@@ -18,6 +18,7 @@ CONSTANTS Graphs,      \* subset of DOMAIN GraphDefs
           Cuts,        \* subset of DOMAIN CutDefs
           MaxOps,      \* history length bound
           SAMPLE,      \* 0 = every table; k > 0 = k random tables per graph (seeded by TLC's -seed)
+          ExhGraphs,   \* graphs whose emitting-only, edge-state instances are enumerated completely
           Moves,       \* subset of DOMAIN MoveDefs (transition terms)
           EMIT
 
@@ -50,7 +51,7 @@ GEdges(g) == {e \in GNodes(g) \X GNodes(g) : e[1] # e[2] /\ \E j \in 1..Len(Grap
 GStates(g, onlyEdges) == GEdges(g) \cup (IF onlyEdges THEN {} ELSE {<<n>> : n \in GNodes(g)})
 CellsE(g, oe) == GStates(g, oe) \X (0..(T - 1))
 CellsN(g, oe) == GStates(g, oe) \X (0..(T - 2))
-Sample(S) == IF SAMPLE = 0 THEN S ELSE RandomSubset(SAMPLE, S)
+Sample(exh, S) == IF SAMPLE = 0 \/ exh THEN S ELSE RandomSubset(SAMPLE, S)
 
 MkInst(g, oe, qe, qn, mv) ==
   LET sts == GStates(g, oe) IN
@@ -66,8 +67,8 @@ MkInst(g, oe, qe, qn, mv) ==
 
 Init ==
   \E g \in Graphs, oe \in NodeModes, ne \in NEs, w \in Widths, cut \in Cuts, mv \in Moves :
-    \E qe \in Sample([CellsE(g, oe) -> QE]) :
-      \E qn \in (IF ne THEN Sample([CellsN(g, oe) -> QN]) ELSE {[x \in CellsN(g, oe) |-> 0]}) :
+    \E qe \in Sample(g \in ExhGraphs /\ oe /\ ~ne, [CellsE(g, oe) -> QE]) :
+      \E qn \in (IF ne THEN Sample(FALSE, [CellsN(g, oe) -> QN]) ELSE {[x \in CellsN(g, oe) |-> 0]}) :
         /\ I = MkInst(g, oe, qe, qn, MoveDefs[mv])
         /\ cf = [onlyEdges |-> oe, ne |-> ne, W |-> w, neLen |-> -1, neMax |-> 100, secondOrder |-> FALSE,
                  maxDist |-> CutDefs[cut].maxDist, maxDistInit |-> CutDefs[cut].maxDistInit,
